@@ -153,7 +153,8 @@ def _first(t, *names):
 def decode_string_literal(text):
     """Decode the text of a string-literal (quotes included) per RFC 9535."""
     q = text[0]
-    assert text[-1] == q and len(text) >= 2
+    if not (text[-1] == q and len(text) >= 2):
+        raise ValueError("not a quoted literal: %r" % (text[:40],))
     body = text[1:-1]
     out = []
     i = 0
